@@ -15,6 +15,21 @@ from typing import Iterable, Iterator, Optional
 PKG = "panoptica"
 
 
+_BASE_PROG = []
+
+
+def _base_program():
+    """Program of the frozen base corpus (reference for renamed anchors), loaded lazily."""
+    if not _BASE_PROG:
+        try:
+            from . import variants
+
+            _BASE_PROG.append(Program(variants.base_sources(), root="<corpus:base>"))
+        except Exception:
+            _BASE_PROG.append(None)
+    return _BASE_PROG[0]
+
+
 class AnchorMissing(Exception):
     """An anchored construct (function, class, call site, ...) no longer exists."""
 
@@ -358,8 +373,95 @@ class Program:
         if len(cands) == 1:
             return cands[0]
         if not cands:
+            f = self._resolve_renamed(ref)
+            if f is not None:
+                return f
             raise AnchorMissing(f"function {ref}")
         raise AnchorMissing(f"function {ref} ambiguous: {[c.qual for c in cands]}")
+
+    # -- anchors that were renamed ----------------------------------------------------------
+    def _resolve_renamed(self, ref: str) -> Optional[Func]:
+        """A rule starts from a named function.  When that name is gone, the function is
+        located through the frozen base corpus: the one function of the current tree that has
+        a name the base does not know, lives in the same kind of container (module level / class
+        of the same name), and has the base function's parameter list and/or is called from the
+        same callers.  Only *where* a rule starts is decided here; the rule then decides on the
+        code it finds.  No unique candidate -> None (the caller raises AnchorMissing)."""
+        memo = self.__dict__.setdefault("renamed", {})
+        if ref in memo:
+            return memo[ref]
+        memo[ref] = None
+        base = _base_program()
+        if base is None or base is self:
+            return None
+        try:
+            bf = base.func(ref)
+        except AnchorMissing:
+            return None
+        if bf is None or bf.parent is not None:
+            return None
+        base_short = {(g.cls.name if g.cls else None, g.name) for g in base.functions.values() if g.parent is None}
+        owner = bf.cls.name if bf.cls else None
+        pnames = tuple(p.name for p in bf.params)
+
+        def callers(prog, name, skip):
+            out = set()
+            for g in prog.functions.values():
+                if g.qual == skip:
+                    continue
+                for n in ast.walk(g.node):
+                    if isinstance(n, ast.Call):
+                        fn = n.func
+                        nm = fn.id if isinstance(fn, ast.Name) else fn.attr if isinstance(fn, ast.Attribute) else None
+                        if nm == name or (nm and name.startswith("__") and nm.endswith(name)):
+                            out.add((g.cls.name if g.cls else None, g.name))
+            return out
+
+        bcallers = callers(base, bf.name, bf.qual)
+        cands = []
+        for g in self.functions.values():
+            if g.parent is not None or (g.cls.name if g.cls else None) != owner:
+                continue
+            if (owner, g.name) in base_short:
+                continue  # a function the base already knows under this name
+            same_params = tuple(p.name for p in g.params) == pnames
+            shared = bool(bcallers & callers(self, g.name, g.qual))
+            if same_params or shared:
+                cands.append((same_params and shared, same_params, shared, g))
+        for level in (0, 1, 2):
+            sel = [c[3] for c in cands if c[level]]
+            if len(sel) == 1:
+                memo[ref] = sel[0]
+                return sel[0]
+            if len(sel) > 1 and level == 0:
+                return None
+        return None
+
+    def is_anchor(self, name: str, ref: str) -> bool:
+        """Does the (qualified or short) callee name denote the anchor function `ref`
+        (under its current name, also when it was renamed)?"""
+        try:
+            f = self.func(ref)
+        except AnchorMissing:
+            return False
+        short = name.split(":")[-1].split(".")[-1]
+        return name == f.qual or short == f.name or (f.name.startswith("__") and short.endswith(f.name))
+
+    def anchor_name(self, ref: str) -> str:
+        """Current short name of the anchor function."""
+        return self.func(ref).name
+
+    def method(self, cls: "Class", name: str) -> Optional[Func]:
+        """cls.lookup(name), falling back to the renamed-anchor search for private methods."""
+        m = cls.lookup(name)
+        if m is not None:
+            return m
+        for c in cls.mro():
+            try:
+                return self.func(f"{c.qual}.{name}")
+            except AnchorMissing:
+                continue
+        return None
 
     def try_func(self, ref: str) -> Optional[Func]:
         try:
